@@ -6,6 +6,7 @@ import (
 	"fmt"
 	"runtime"
 	"sync"
+	"sync/atomic"
 	"time"
 
 	"github.com/ulikunitz/xz"
@@ -187,6 +188,66 @@ func C18(c *hx.Ctx) {
 					break
 				}
 			}
+		}
+	}
+	// the declared size must cover what the encoder does with that capacity: a repeat a little
+	// beyond the capacity must not be used (the reader sizes its window from the header byte)
+	for _, dc := range caps {
+		if dc > 1<<20+1 {
+			continue
+		}
+		x := MakeData("random", dc+200, int64(dc))
+		data := append(append([]byte{}, x...), x[:400]...)
+		var buf bytes.Buffer
+		w, err := xz.WriterConfig{DictCap: dc}.NewWriter(&buf)
+		if err != nil {
+			continue
+		}
+		w.Write(data)
+		w.Close()
+		c.Count(1, 1)
+		r := ref.DecodeXZ(buf.Bytes(), ref.XZOpts{})
+		out, rerr, p := readXZ(buf.Bytes(), 4096, false, 4096)
+		if r.Err != nil || p != nil || rerr != nil || !bytes.Equal(out, data) {
+			c.Violation(map[string]string{"fn": "declared-size-covers-distances", "dictcap": fmt.Sprint(dc)}, fmt.Sprintf("DictCap %d: a stream with a repeat just beyond the capacity is not decodable with the window the header declares (ref: %v, reader: %v %v)", dc, r.Err, rerr, p), map[string]any{"dictcap": dc})
+		}
+	}
+	// concurrent writers with different capacities: every header still carries its own code
+	{
+		var wg sync.WaitGroup
+		var bad atomic.Int64
+		var firstBad atomic.Value
+		for g := 0; g < 12; g++ {
+			wg.Add(1)
+			go func(g int) {
+				defer wg.Done()
+				for k := 0; k < c.Pick(400, 4000); k++ {
+					dc := caps[(g*7+k)%len(caps)]
+					if dc > 1<<20+1 {
+						dc = 4096 + g
+					}
+					var buf bytes.Buffer
+					w, err := xz.WriterConfig{DictCap: dc, BufSize: 273}.NewWriter(&buf)
+					if err != nil {
+						continue
+					}
+					w.Write([]byte{byte(k)})
+					w.Close()
+					want := 0
+					for size[want] < int64(dc) {
+						want++
+					}
+					if b := buf.Bytes(); len(b) < 17 || int(b[16]) != want { // stream header 12 + size, flags, filter id, props size
+						bad.Add(1)
+						firstBad.CompareAndSwap(nil, fmt.Sprintf("DictCap %d: header byte %d, want %d", dc, b[16], want))
+					}
+				}
+			}(g)
+		}
+		wg.Wait()
+		c.Count(12*int64(c.Pick(400, 4000)), 1)
+		if bad.Load() > 0 {
+			c.Violation(map[string]string{"fn": "blockheader-concurrent"}, fmt.Sprintf("%d block headers written by concurrent writers carry a wrong dictionary byte (%v)", bad.Load(), firstBad.Load()), map[string]any{"first": firstBad.Load()})
 		}
 	}
 	// (C) observations validated by TLC against the declarative module
